@@ -1,11 +1,12 @@
 (* C18 at the model level: the full correctness statement of the Go-faithful model of
    Canonicalize ([T2], not proved in full), the cases proved, and the F04 / O2 witnesses on
    the as-found variants. *)
-From CV Require Import Value.ValueEq Value.EqualM Value.CanonSpec Value.CanonM Value.EqualProofs.
+From CV Require Import Value.ValueEq Value.EqualM Value.CanonSpec Value.CanonM Value.EqualProofs Value.Den.
+From CV Require Import Core.ReaderFacts.
 Open Scope Z_scope.
 
 Definition all_cfixed (fx : cfix) : Prop :=
-  cx_complist fx = true /\ cx_bitpad fx = true /\
+  cx_complist fx = true /\ cx_bitpad fx = true /\ cx_farnull fx = true /\
   fx_depth (cx_rd fx) = true /\ fx_upgrade (cx_rd fx) = true /\ fx_bit (cx_rd fx) = true.
 
 (* [T2] whenever Canonicalize returns bytes, they are the specification's canonical form of
@@ -13,8 +14,8 @@ Definition all_cfixed (fx : cfix) : Prop :=
    return bytes (the converse direction is part of the statement) *)
 Definition canon_m_correct_statement : Prop :=
   forall fuel c fx m rl s v,
-    all_cfixed fx -> far_ok m ->
-    denotes c (cx_rd fx) m 0 [] s v ->
+    all_cfixed fx ->
+    cfg_strict c = true -> msg_ok m -> den true m 0 [] s v ->
     forall r rl', canonicalize c fx fuel m rl s = (r, rl') ->
     match r with
     | KOk bs => canon v = Some bs
@@ -40,8 +41,8 @@ Qed.
    no pointers, at the end of the segment *)
 Definition msg_complist (tail : list Z) : segs :=
   [wbytes ([struct_word 0 0 1; list_word 0 7 2; struct_word 2 1 0; 7; 0] ++ tail)].
-Definition asfound := mkCFix false false rdfix.
-Definition repaired := mkCFix true true rdfix.
+Definition asfound := mkCFix false false false rdfix.
+Definition repaired := mkCFix true true true rdfix.
 
 Definition spec_bytes (m : segs) : option (option (list Z)) := fst (spec_canon 20 cfg0 rdfix m SelRoot 1024 64).
 
@@ -63,7 +64,7 @@ Qed.
 
 (* O2: dirty padding bits of a bit list (3 bits, byte 0xfd) *)
 Example canon_bitpad_prefix_refuted :
-  (exists bs, run_canon 30 cfg0 (mkCFix true false rdfix) (msg_bits 253) SelRoot = KOk bs
+  (exists bs, run_canon 30 cfg0 (mkCFix true false true rdfix) (msg_bits 253) SelRoot = KOk bs
               /\ spec_bytes (msg_bits 253) <> Some (Some bs))
   /\ (exists bs, run_canon 30 cfg0 repaired (msg_bits 253) SelRoot = KOk bs
                  /\ spec_bytes (msg_bits 253) = Some (Some bs)
